@@ -118,6 +118,16 @@ pub fn gen_safety(w: &mut Rng, has_tool: bool, has_base: bool, n_env: usize, tou
         to_env = to_env.min(0.02);
         to_robot = to_robot.min(0.008);
     }
+    // "nothing collides unless listed": the default itself is NEVER_COLLIDES and individual pairs
+    // are re-enabled through the table
+    let never_robot = w.chance(0.08);
+    let never_env = w.chance(0.05);
+    if never_robot {
+        to_robot = NEVER;
+    }
+    if never_env {
+        to_env = NEVER;
+    }
     let mut ids: Vec<usize> = (0..6).collect();
     if has_tool {
         ids.push(J_TOOL);
@@ -129,10 +139,15 @@ pub fn gen_safety(w: &mut Rng, has_tool: bool, has_base: bool, n_env: usize, tou
         ids.push(ENV0 + k);
     }
     let mut special: Vec<(u16, u16, f32)> = Vec::new();
-    let n_special = match w.below(4) {
-        0 => 0,
-        1 => w.range_usize(1, 2),
-        _ => w.range_usize(2, 7),
+    // (decided below) with a NEVER default there should be entries that re-enable pairs
+    let n_special = if never_robot || never_env {
+        w.range_usize(3, 9)
+    } else {
+        match w.below(4) {
+            0 => 0,
+            1 => w.range_usize(1, 2),
+            _ => w.range_usize(2, 7),
+        }
     };
     for _ in 0..n_special {
         let a = *w.pick(&ids);
@@ -144,7 +159,7 @@ pub fn gen_safety(w: &mut Rng, has_tool: bool, has_base: bool, n_env: usize, tou
             continue;
         }
         let d = match w.below(10) {
-            0..=3 => NEVER,
+            0..=3 if !(never_robot || never_env) => NEVER,
             4 => 0.0,
             _ => dist(w),
         };
